@@ -86,8 +86,14 @@ class Report:
         self.notes.append(text)
 
     # ---- output -------------------------------------------------------------------------------
-    def finish(self, explanation, rule_text):
+    def finish(self, explanation, rule_text, replay=None):
         known = load_known().get(self.pid, {})
+        if replay is not None:
+            # --replay <file>: the verdict is about that one rule instance on the current tree
+            key = replay.get("key")
+            hit = [v for v in self.violations if v["key"] == key]
+            self.violations = hit
+            print("replay of %s on the current tree: %s" % (key, "still violated" if hit else "holds (or the instance no longer exists)"))
         new = []
         known_hit = []
         seen = set()
